@@ -1,4 +1,5 @@
 #include <assert.h>
+#include <ctype.h>
 #include <limits.h>
 #include <stdint.h>
 #include <stdio.h>
@@ -691,6 +692,17 @@ callback_chunkedheader(void * cookie, int status)
 
 	/* If we found one, handle the line. */
 	if (eolpos != buflen) {
+		/*
+		 * The chunk length must start with a hex digit; in particular
+		 * it must not be empty or start with whitespace (which
+		 * strtoumax would skip, along with the EOL, potentially
+		 * reading beyond the end of the buffer).
+		 */
+		if (!isxdigit(buf[0])) {
+			warn0("Invalid chunk length");
+			return (fail(H));
+		}
+
 		/*
 		 * Parse the chunk length; it's always in base 16, and allow
 		 * trailing characters to accommodate the EOL.  ${buf} is not
